@@ -21,6 +21,10 @@ def run(ctx: Ctx, chk) -> None:
     from . import c17 as _c17
 
     chk.run_rule(lambda c, k: _c17.resync1(c, k, "RESYNC-1"), ctx)
+    # "the next well-formed line is processed normally": the skip flag of the over-long-line recovery (same rule as C17)
+    from .common import OnlyRule
+
+    chk.run_rule(lambda c, k: _c17.frame1(c, OnlyRule(k, "RESYNC-2", "RESYNC-2", "", "after an over-long line was reported, the rest of that line is skipped and the skip flag is cleared on every way out of read(): the lines that follow are delivered")), ctx)
     from .mmtemplates import template1
 
     chk.run_rule(lambda c, k: template1(c, k, ["aiomysensors.model.message.MessageSchema"]), ctx)
